@@ -60,6 +60,8 @@ def gen(rng, tier):
               custom = "~"
               if naming.startswith("cu.") and naming.split(".")[1] != "~" and rng.random() < 0.5:
                   custom = naming.split(".")[1]
+              elif naming in ("num", "ts") and rng.random() < 0.15:
+                  custom = g.hx(b"rCURRENT")      # the same file asked for twice (with_r_current and with_custom_current)
               ops += ["F", "SN", "Q:%s:%s" % (rng.choice(["100", "110", "111", "001", "010", "000", "101"]), custom)]
       ops += ["F", "SN", "Q:111:~", "S", "SN"]
       if rng.random() < 0.5:
